@@ -51,4 +51,40 @@ def collectLazy (accept : κ → κ → Option (Ordering × κ)) (sel : List (En
     | none => c
   | none => appendDoc sel c e
 
+/-! ## the comparators of `order.rs` on optional keys
+
+`τ` is the value type with its own comparison `c` (`partial_cmp(..).unwrap_or(Equal)`; a total
+order for integers, dates, strings, and floats without NaN). A fast-field key is `Option τ`. -/
+
+variable {τ : Type}
+
+/-- mirrors: src/collector/sort_key/order.rs::compare of `NaturalComparator` on `Option<T>` —
+`lhs.partial_cmp(rhs)` of `Option`: `None < Some(_)`, `Some(a)` vs `Some(b)` by the values -/
+def natOpt (c : τ → τ → Ordering) : Option τ → Option τ → Ordering
+  | none, none => .eq
+  | none, some _ => .lt
+  | some _, none => .gt
+  | some a, some b => c a b
+
+/-- `ReverseComparator`: `NaturalComparator.compare(rhs, lhs)` -/
+def revOpt (c : τ → τ → Ordering) (a b : Option τ) : Ordering := natOpt c b a
+
+/-- `ReverseNoneIsLowerComparator` on `Option<T>` (what `Order::Asc` becomes) -/
+def revNoneLower (c : τ → τ → Ordering) : Option τ → Option τ → Ordering
+  | none, none => .eq
+  | none, some _ => .lt
+  | some _, none => .gt
+  | some a, some b => c b a
+
+/-- `NaturalNoneIsHigherComparator` on `Option<T>` -/
+def natNoneHigher (c : τ → τ → Ordering) : Option τ → Option τ → Ordering
+  | none, none => .eq
+  | none, some _ => .gt
+  | some _, none => .lt
+  | some a, some b => c a b
+
+/-- `impl From<Order> for ComparatorEnum`: `Asc => ReverseNoneLower`, `Desc => Natural` -/
+def ofOrder (asc : Bool) (c : τ → τ → Ordering) : Option τ → Option τ → Ordering :=
+  if asc then revNoneLower c else natOpt c
+
 end TantivyModel.TopN
